@@ -145,7 +145,7 @@ func scenarioMain(args []string) {
 			_, _ = snd.WriteTo([]byte("hello"), b.NewAddr("alpha", "reuse"))
 			select {
 			case <-got:
-			case <-time.After(time.Second):
+			case <-time.After(5 * time.Second):
 				res.violate(fmt.Sprintf("socket 'reuse' (advertised=%v) is open and was never closed, but after a second Close of an OLDER socket of the same name the registry is %v and a datagram sent to it is not delivered", adv, reg),
 					"open-socket-unregistered:second-close-of-older-socket", nil)
 			}
@@ -549,6 +549,70 @@ func scenarioMain(args []string) {
 		if len(regs[0]) != 1 || regs[0][0] != pcSlow.LocalService() { // only the silent client's own socket
 			res.violate(fmt.Sprintf("after 4 raw clients the registry of alpha holds %v", regs[0]), "leak:unknown-service", nil)
 		}
+		// (i') a client that connects and goes away without a stream; dials whose context ends at
+		// every stage of DialContext; a dial nobody accepts when the listener is closed
+		if qc, pc, err := rawDial("strict", false); err == nil {
+			_ = qc.CloseWithError(7, "changed my mind")
+			_ = pc.Close()
+			select {
+			case e := <-errs1:
+				if e == nil {
+					res.violate("a connection that was closed before it opened a stream was accepted", "marker-not-required", nil)
+				}
+			case <-time.After(1500 * time.Millisecond):
+				res.hist("scenario-raw:no-accept-result-for-vanished-client")
+			}
+			count(name+"|client-gone-before-stream", true)
+		}
+		_, ctFast := fastTLS()
+		okDials, failedDials := 0, 0
+		for k := 0; k < 40; k++ {
+			ctx, cancel := context.WithTimeout(context.Background(), time.Duration(k*180)*time.Microsecond)
+			c, err := a.DialContext(ctx, "beta", "strict", ctFast)
+			cancel()
+			if err == nil {
+				okDials++
+				_ = c.CloseConnection()
+			} else {
+				failedDials++
+			}
+		}
+		res.hist(fmt.Sprintf("scenario-raw:dials-with-ending-context ok=%d failed=%d", okDials, failedDials))
+		if c, err := a.Dial("beta", "strict", ctFast); err == nil { // the wrapper without a context
+			_ = c.CloseConnection()
+		} else {
+			res.violate("Dial to an open listener failed: "+err.Error(), "dial-failed", nil)
+		}
+		liNA, err := b.Listen("noaccept", st)
+		if err == nil {
+			ctx, cancel := context.WithTimeout(context.Background(), 5*time.Second)
+			c, err := a.DialContext(ctx, "beta", "noaccept", ctFast)
+			cancel()
+			time.Sleep(100 * time.Millisecond)
+			doneNA := make(chan struct{})
+			go func() { _ = liNA.Close(); close(doneNA) }()
+			select {
+			case <-doneNA:
+			case <-time.After(5 * time.Second):
+				res.violate("Listener.Close() with a connection nobody has accepted did not return within 5s", "hang:listener-close", nil)
+			}
+			if err == nil {
+				_ = c.CloseConnection()
+			}
+			count(name+"|closed-with-unaccepted-connection", true)
+		}
+		now, _, _ = settle(nodes, connQuiet(), 8*time.Second)
+		delete(now, pending)
+		// quic-go keeps a half-open connection for its handshake timeout (15 s): only receptor's own
+		// goroutines are judged here
+		for k := range now {
+			if strings.HasPrefix(k, "github.com/quic-go/") {
+				now[k] = b1[k]
+			}
+		}
+		if d := diffBuckets(b1, now); len(d) > 0 {
+			res.violate(fmt.Sprintf("after a vanished client, 40 dials whose context ended during the dial (%d succeeded) and a listener closed with an unaccepted connection: goroutines left behind: %v", okDials, d), "leak:goroutines:dial-stages", d)
+		}
 		// (ii) no stream until the listener is closed
 		lg.step("raw client connects, opens no stream; the listener is closed")
 		qc2, pc2, err := rawDial("strict", false)
@@ -630,8 +694,32 @@ func scenarioMain(args []string) {
 			<-acc
 			_, _ = c.Write([]byte("x"))
 		}
-		lg.step("Shutdown of both nodes with open sockets, a subscription, a listener and a connection")
+		// a Ping and a Dial that are waiting for an answer that will not come (the link swallows
+		// everything from now on) must end with the node
+		m.Links[0].EndA.SetSilent(true)
+		m.Links[0].EndB.SetSilent(true)
+		inflight := make(chan string, 2)
+		go func() {
+			_, _, err := a.Ping(context.Background(), "beta", 8)
+			inflight <- fmt.Sprintf("ping: %v", err)
+		}()
+		go func() {
+			ctx, cancel := context.WithTimeout(context.Background(), 30*time.Second)
+			defer cancel()
+			_, err := a.DialContext(ctx, "beta", "svc", ct)
+			inflight <- fmt.Sprintf("dial: %v", err)
+		}()
+		time.Sleep(150 * time.Millisecond)
+		lg.step("Shutdown of both nodes with open sockets, a subscription, a listener, a connection, and a Ping and a Dial in flight")
 		m.Shutdown()
+		for i := 0; i < 2; i++ {
+			select {
+			case r := <-inflight:
+				res.hist("scenario-shutdown-inflight:" + r)
+			case <-time.After(5 * time.Second):
+				res.violate("a Ping or Dial that was waiting for an answer did not return within 5s of the node's Shutdown", "shutdown-inflight-stuck", nil)
+			}
+		}
 		now, _, _ := settle(nil, connQuiet(), 8*time.Second)
 		var left []string
 		for k, v := range now {
